@@ -71,7 +71,13 @@ def _restart(at, P, parset, progset, instructions, res, year, medium, scratch, s
         if progset is not None:
             progset = P2.progsets[progset.name]
     elif medium == "spreadsheet":
-        ss = ps.calibration_spreadsheet()
+        if stats.get("_file_toggle", 0) % 2 == 0:
+            ss = ps.calibration_spreadsheet()
+        else:
+            fn = os.path.join(scratch, "cal.xlsx")
+            ps.save_calibration(fn)
+            ss = fn
+        stats["_file_toggle"] = stats.get("_file_toggle", 0) + 1
         # loaded into a parset that has the same visible data (incl. scenario overwrites) but neither the y-factors' origin nor a saved state
         fresh = parset.copy("fresh")
         fresh.initialization = None
@@ -179,7 +185,13 @@ def run(ch, idx, tier):
                 if ch.flip(f"alloc[{pn}]", 0.5):
                     base = float(prog.spend_data.interpolate(ps_year)[0]) if prog.spend_data.has_data else 0.0
                     alloc[pn] = at.TimeSeries([ps_year, ps_year + 2 * dt], [base * ch.uniform("alloc_scale", 0.0, 2.0), base * ch.uniform("alloc_scale2", 0.0, 2.0)])
-        instructions = at.ProgramInstructions(start_year=ps_year, stop_year=stop, alloc=alloc)
+        coverage = capacity = None
+        pnames = list(progset.programs.keys())
+        if ch.flip("coverage_overwrite", 0.25):
+            coverage = {pnames[ch.choose("coverage.prog", len(pnames))]: at.TimeSeries([ps_year, ps_year + 3 * dt], [ch.uniform("coverage.v0", 0.05, 0.6), ch.uniform("coverage.v1", 0.05, 0.6)])}
+        if ch.flip("capacity_overwrite", 0.25):
+            capacity = {pnames[ch.choose("capacity.prog", len(pnames))]: at.TimeSeries([ps_year, ps_year + 2 * dt], [ch.uniform("capacity.v0", 10, 500), ch.uniform("capacity.v1", 10, 500)])}
+        instructions = at.ProgramInstructions(start_year=ps_year, stop_year=stop, alloc=alloc, coverage=coverage, capacity=capacity)
     if ch.flip("perturb_yfactors", 0.3):
         pars = [p for p in parset.pars.values() if P.framework.pars.index.isin([p.name]).any()]
         for k in range(1 + ch.choose("n_yfactors", 3)):
@@ -212,7 +224,7 @@ def run(ch, idx, tier):
             except Exception:
                 scen_desc = None
 
-    config = {"project": name, "dt": dt, "nsteps": nsteps, "programs": use_progs, "scenario": scen_desc, "instructions": None if instructions is None else {"start": instructions.start_year, "stop": instructions.stop_year, "alloc": sorted(instructions.alloc.keys())}}
+    config = {"project": name, "dt": dt, "nsteps": nsteps, "programs": use_progs, "scenario": scen_desc, "instructions": None if instructions is None else {"start": instructions.start_year, "stop": instructions.stop_year, "alloc": sorted(instructions.alloc.keys()), "coverage": sorted(instructions.coverage.keys()), "capacity": sorted(instructions.capacity.keys())}}
     scratch = tempfile.mkdtemp(prefix="atomsim_c10_", dir=os.environ.get("VERIF_SCRATCH"))
     try:
         try:
@@ -315,6 +327,7 @@ def run(ch, idx, tier):
             bump("probe:programs_active")
         if exhaustive:
             bump("probe:all_crash_indices_enumerated")
+        stats.pop("_file_toggle", None)
         bump("problems")
         sig = hashlib.sha256(repr(sorted(set(sigs))).encode()).hexdigest()[:16] if sigs else None
         return {
